@@ -421,11 +421,34 @@ class Task(object):
         self.last = None
 
 
+class StepHang(BaseException):
+    """One resume of a library generator used more CPU than a whole
+    handshake ever needs: it loops without yielding."""
+
+
+STEP_LIMIT = float(os.environ.get("VERIF_STEP_TIMEOUT", "20"))
+
+
+def _on_vtalrm(sig, frame):
+    raise StepHang()
+
+
+def _arm_step_watchdog():
+    import signal
+    import threading
+    if threading.current_thread() is not threading.main_thread():
+        return None
+    if signal.getsignal(signal.SIGVTALRM) is not _on_vtalrm:
+        signal.signal(signal.SIGVTALRM, _on_vtalrm)
+    return signal
+
+
 def run_tasks(world, tasks, max_steps=200000, stall_rounds=3, order=None):
     """Round-robin the generators until all finish, stall or blow the
     budget.  Returns {who: Outcome}."""
     stall = 0
     total = 0
+    sigmod = _arm_step_watchdog()
     while True:
         live = [t for t in tasks if t.outcome is None]
         if not live:
@@ -443,12 +466,25 @@ def run_tasks(world, tasks, max_steps=200000, stall_rounds=3, order=None):
             try:
                 if meter is not None:
                     meter.start()
+                if sigmod is not None:
+                    sigmod.setitimer(sigmod.ITIMER_VIRTUAL, STEP_LIMIT)
                 try:
                     t.last = next(t.gen)
                 finally:
+                    if sigmod is not None:
+                        sigmod.setitimer(sigmod.ITIMER_VIRTUAL, 0)
                     if meter is not None:
                         meter.stop()
                 t.steps += 1
+            except StepHang:
+                # same verdict as an exhausted step budget: the endpoint
+                # spins instead of failing or progressing
+                t.outcome = Outcome("budget", steps=t.steps)
+                progressed = True
+                try:
+                    t.gen.close()
+                except BaseException:
+                    pass
             except StopIteration as si:
                 t.outcome = Outcome("ok", value=si.value if si.value
                                     is not None else t.last, steps=t.steps)
